@@ -87,6 +87,8 @@ pub use remove_spaces::*;
 pub use remove_types::*;
 pub use remove_unused_variable::*;
 pub use rename_variables::*;
+#[cfg(feature = "verif")]
+pub(crate) use rename_variables::verif_sort_char;
 pub(crate) use replace_referenced_tokens::*;
 pub use require::PathRequireMode;
 pub use rule_property::*;
